@@ -58,6 +58,15 @@ fn avx_candidates<T: rustfft::FftNum>(lens: &[usize]) -> BTreeSet<usize> {
     out
 }
 
+/// spec of the returned instance; a wrong reported direction is made visible in the text (the model has none: it is the requested one)
+fn spec_dir<T: rustfft::FftNum>(fft: &std::sync::Arc<dyn rustfft::Fft<T>>, requested: FftDirection) -> String {
+    if fft.fft_direction() == requested {
+        spec_text(fft)
+    } else {
+        format!("{} WRONG-DIRECTION", spec_text(fft))
+    }
+}
+
 fn keys_text(k: &[usize]) -> String {
     format!("[{}]", k.iter().map(|x| x.to_string()).collect::<Vec<_>>().join(" "))
 }
@@ -71,7 +80,7 @@ fn run_history<T: rustfft::FftNum>(planner: &str, steps: &[(usize, FftDirection)
                 let r = catch(|| {
                     let text = p.verif_recipe(n);
                     let fft = p.plan_fft(n, d);
-                    (text, spec_text(&fft))
+                    (text, spec_dir(&fft, d))
                 });
                 match r {
                     Ok((text, spec)) => {
@@ -92,7 +101,7 @@ fn run_history<T: rustfft::FftNum>(planner: &str, steps: &[(usize, FftDirection)
                 let r = catch(|| {
                     let text = p.verif_recipe(n);
                     let fft = p.plan_fft(n, d);
-                    (text, spec_text(&fft))
+                    (text, spec_dir(&fft, d))
                 });
                 match r {
                     Ok((text, spec)) => {
@@ -113,7 +122,7 @@ fn run_history<T: rustfft::FftNum>(planner: &str, steps: &[(usize, FftDirection)
                 let r = catch(|| {
                     let text = p.verif_plan(n, d);
                     let fft = p.plan_fft(n, d);
-                    (text, spec_text(&fft))
+                    (text, spec_dir(&fft, d))
                 });
                 match r {
                     Ok((text, spec)) => {
@@ -148,6 +157,9 @@ fn pools() -> Vec<Vec<usize>> {
         vec![1, 2, 3, 0, 9, 10, 20, 60, 120],
         vec![31, 62, 992, 961, 29791, 93, 27],
         vec![1201, 1200, 2402, 3603, 600, 300],
+        // products of two larger primes (no factor <= 7, not a butterfly pair) and their Rader/Bluestein parts
+        vec![11, 37, 41, 407, 451, 1517, 74, 111, 82, 59, 649],
+        vec![83, 166, 107, 214, 167, 1031, 59, 118, 149],
     ]
 }
 
